@@ -1099,3 +1099,97 @@ Proof. intros H. exact (malformed_is_error 16 H). Qed.
    lower-case rendering is one of them *)
 Lemma hex_encode_decodes : forall b, Forall (fun x => x < 256) b -> hex_decode (hex_encode b) = Some b.
 Proof. exact hex_decode_encode. Qed.
+
+(* ====================================================================== *)
+(* accepted root spellings: verify_merkle_root (= valid_hash_string) is the single definition;
+   it accepts exactly the strings of 2L hexadecimal digits, in any case, nothing else
+   (no prefix, no whitespace, no other length) *)
+Lemma hex_decode_some_iff : forall s,
+  (exists b, hex_decode s = Some b /\ length s = (2 * length b)%nat) <->
+  Nat.even (length s) = true /\ forallb is_hex_char s = true.
+Proof.
+  induction s as [| x | x y r IH] using list_pair_ind.
+  - split; [intros _; split; reflexivity|intros _; exists []; split; reflexivity].
+  - split; [intros (b & E & _); discriminate|intros [E _]; discriminate].
+  - cbn [hex_decode length Nat.even forallb]. unfold is_hex_char at 1 2.
+    destruct (hex_val x) as [h|]; [|split; [intros (b & E & _); discriminate|intros [_ E]; discriminate]].
+    destruct (hex_val y) as [l|]; [|split; [intros (b & E & _); discriminate|intros [_ E]; discriminate]].
+    cbn [andb]. destruct IH as [I1 I2]. split.
+    + intros (b & E & Lb). destruct (hex_decode r) as [bs|] eqn:D; [|discriminate].
+      apply I1. exists bs. split; [reflexivity|]. apply some_inj in E. rewrite <- E in Lb. cbn [length] in Lb. lia.
+    + intros HE. destruct (I2 HE) as (bs & D & Lb). rewrite D. exists (16 * h + l :: bs).
+      split; [reflexivity|]. cbn [length]. lia.
+Qed.
+Lemma hex_decode_length : forall s b, hex_decode s = Some b -> length s = (2 * length b)%nat.
+Proof.
+  induction s as [| x | x y r IH] using list_pair_ind; intros b E.
+  - cbn in E. apply some_inj in E. rewrite <- E. reflexivity.
+  - discriminate.
+  - cbn [hex_decode] in E. destruct (hex_val x); [|discriminate]. destruct (hex_val y); [|discriminate].
+    destruct (hex_decode r) as [bs|] eqn:D; [|discriminate]. apply some_inj in E. rewrite <- E.
+    cbn [length]. rewrite (IH bs eq_refl). lia.
+Qed.
+Lemma even_double : forall n, Nat.even (2 * n) = true.
+Proof. intro n. rewrite Nat.even_mul. reflexivity. Qed.
+
+Theorem accepted_spelling_iff : forall L s,
+  verify_merkle_root L s = Ok tt <-> length s = (2 * L)%nat /\ forallb is_hex_char s = true.
+Proof.
+  intros L s. unfold verify_merkle_root. rewrite valid_hash_string_ok. unfold hex_ok. split.
+  - destruct (hex_decode s) as [b|] eqn:D; [|discriminate]. intro E. apply Nat.eqb_eq in E.
+    pose proof (hex_decode_length s b D) as Ls. split; [lia|].
+    apply (proj1 (hex_decode_some_iff s)). exists b. auto.
+  - intros [Ls Hh]. assert (Ev : Nat.even (length s) = true) by (rewrite Ls; apply even_double).
+    destruct (proj2 (hex_decode_some_iff s) (conj Ev Hh)) as (b & D & Lb). rewrite D.
+    apply Nat.eqb_eq. lia.
+Qed.
+Theorem accepted_spelling_denotes : forall L s, verify_merkle_root L s = Ok tt ->
+  exists r, hex_decode s = Some r /\ length r = L.
+Proof.
+  intros L s E. unfold verify_merkle_root in E. apply valid_hash_string_ok in E. unfold hex_ok in E.
+  destruct (hex_decode s) as [b|]; [|discriminate]. exists b. split; [reflexivity|apply Nat.eqb_eq; exact E].
+Qed.
+
+(* instantiate stores the root string as received and accepts it only through verify_merkle_root *)
+Theorem wl_instantiate_root : forall now funds rs uri_ok st en lim admins aok mut s,
+  wl_instantiate now funds rs uri_ok st en lim admins aok mut = Ok s ->
+  wl_root s = rs /\ verify_merkle_root 32 rs = Ok tt.
+Proof.
+  intros now funds rs uri_ok st en lim admins aok mut s E. unfold wl_instantiate in E.
+  destruct (verify_merkle_root 32 rs) as [[]|]; [|discriminate]. cbn [bind] in E.
+  destruct uri_ok; cbn in E; [|discriminate].
+  destruct (must_pay funds NATIVE) as [p|]; cbn in E; [|discriminate].
+  repeat match type of E with context [guard ?b] => destruct b; cbn in E; try discriminate end.
+  inversion E. split; reflexivity.
+Qed.
+Lemma all_ok_forall : forall L roots, all_ok L roots = Ok tt -> Forall (fun r => verify_merkle_root L r = Ok tt) roots.
+Proof.
+  induction roots as [|r rs IH]; intro E; [constructor|]. cbn [all_ok] in E.
+  destruct (verify_merkle_root L r) as [[]|] eqn:V; [|discriminate]. constructor; [exact V|apply IH; exact E].
+Qed.
+Theorem tw_instantiate_roots : forall now funds roots uris_ok stages admins aok mut s,
+  tw_instantiate now funds roots uris_ok stages admins aok mut = Ok s ->
+  tw_roots s = roots /\ tw_stages s = stages /\ Forall (fun r => verify_merkle_root 16 r = Ok tt) roots.
+Proof.
+  intros now funds roots uris_ok stages admins aok mut s E. unfold tw_instantiate in E.
+  destruct (all_ok 16 roots) as [[]|] eqn:A; [|discriminate]. cbn [bind] in E.
+  destruct uris_ok; cbn in E; [|discriminate].
+  destruct (must_pay funds NATIVE) as [p|]; cbn in E; [|discriminate].
+  destruct (p =? _); cbn in E; [|discriminate].
+  destruct (validate_stages now stages) as [[]|]; cbn in E; [|discriminate].
+  destruct aok; cbn in E; [|discriminate]. inversion E. repeat split. apply all_ok_forall. exact A.
+Qed.
+
+(* an instantiate that succeeded with a spelling of the tree's root => every listed entry is
+   accepted with its proof, for ever (roots are immutable over histories) *)
+Theorem wl_instantiate_complete : forall (H : list N -> list N),
+  (forall x, length (H x) = 32%nat) -> (forall x, Forall (fun b => b < 256) (H x)) ->
+  forall now funds rs uri_ok st en lim admins aok mut s (ms : list (list N)) i m h,
+  wl_instantiate now funds rs uri_ok st en lim admins aok mut = Ok s ->
+  hex_decode rs = Some (root H ms) -> nth_error ms i = Some m ->
+  wl_has_member H (wl_run_steps h s) m (map hex_encode (proof_at H ms i)) = Ok true.
+Proof.
+  intros H Hl Hb now funds rs uri_ok st en lim admins aok mut s ms i m h E D Hi.
+  rewrite wl_has_member_stable. apply wl_instantiate_root in E. destruct E as [Er _].
+  apply wl_has_member_complete; auto. rewrite Er. exact D.
+Qed.
